@@ -25,6 +25,7 @@ carry its verdict, action and token, and must not outlive the TTL.
 from __future__ import annotations
 
 import hashlib
+import zlib
 
 from opsim import seams
 from opsim.core import CLOCK, EPOCH, derive, HarnessError
@@ -55,11 +56,15 @@ RULE = ("run i < 588 is the i-th cell of the complete table 6 gate logics x 7 ex
         "sticky, pct, lock-biased) with a decision at every source line of loops.py and every lock operation, followed by "
         "a sequential probe of every prompt after quiescence; non-trivial = a cell or history that is not made of "
         "(AND, permit, permit) requests only, for threads plans a run with at least one pre-emption inside run(); "
-        "distinct = distinct cell, or distinct (configuration, prompts, operation lists)")
+        "distinct = distinct cell, or distinct (configuration, prompts, operation lists).  In every family the seed also "
+        "draws the optional fields of the agents' ActionProteins (source_agent none/empty/own/other agent/foreign, payload "
+        "str/None/dict/int, confidence, metadata), recording or raising on_block/on_permit observers, and 60 % of the "
+        "prompt sets from twins that a weak request identity would merge (crc32 / adler32 collisions, equal head and tail, "
+        "anagrams, equal first 64 characters, non-ASCII- or digit-only differences, case / white-space twins)")
 COMPONENTS = {"real": ["operon_ai.topology.loops.CoherentFeedForwardLoop", "operon_ai.state.metabolism.ATP_Store",
                        "operon_ai.core.types.ApprovalToken/ActionProtein/Signal",
                        "operon_ai.core.agent.BioAgent (real-agent family only, behind a recording spy)"],
-              "stub": ["executor / assessor agents (scripted fakes)", "datetime.now (virtual clock)",
+              "stub": ["executor / assessor agents (scripted fakes)", "on_block / on_permit observers (recording / raising fakes)", "datetime.now (virtual clock)",
                        "threading.Lock (SimLock)", "the OS scheduler (seeded line-granularity scheduler, threads family)"]}
 ASSUMPTIONS = [
     "only the direction the statement gives is checked: not blocked => table satisfied (pairs that satisfy a gate logic "
@@ -73,6 +78,7 @@ ASSUMPTIONS = [
     "the original of a cache reply is the latest fresh reply to the same prompt (or the latest one in which no agent raised)",
     "hash binding is sha256(prompt)[:16] as pinned by the repo's own test",
     "exactly-at-TTL is not asserted; staleness is demanded only strictly after the TTL",
+    "a raising on_block / on_permit observer is the caller's own exception: the reply it was handed is judged as the reply",
     "threads family: pre-emption granularity is the source line of loops.py; the original of a cache reply is any fresh "
     "reply to the same prompt invoked before the cache reply returned; the `cached` flag is not judged (the code shares "
     "one result object between the original and its cache replies); staleness only from completed originals",
@@ -81,7 +87,8 @@ EXPECT_PROBES = ("table_cell", "passed", "cache_hit", "cache_hit_script_changed"
                  "ttl_just_below_hit", "token_attached", "agent_raised", "unknown_verdict",
                  "prefix_sharing_prompts_cached", "real_agents", "second_agent_starved",
                  "threads_run", "overlapping_requests_different_prompts", "overlapping_requests_same_prompt",
-                 "cache_hit_on_concurrent_original", "post_probe_fresh", "preempted_while_holding_a_lock")
+                 "cache_hit_on_concurrent_original", "post_probe_fresh", "preempted_while_holding_a_lock",
+                 "protein_tagged_with_foreign_source", "observer_raised_reply_captured", "weak_key_twins_both_asked")
 
 KNOWN = ("EXECUTE", "PERMIT", "BLOCK", "FAILURE", "DEFER")
 EXEC_PERMITS = ("EXECUTE", "PERMIT")
@@ -90,11 +97,46 @@ EXC = {"RuntimeError": RuntimeError, "ValueError": ValueError, "KeyError": KeyEr
 UNKNOWNS = ["UNKNOWN", "", "permit", "Permit", "PERMIT ", "APPROVE", "SUCCESS", "EXECUTE\n", "OK"]
 POOL = ["deploy service", "deploy server", "deploy s", "deploy service ", "Deploy service", "", "a",
         "calculate 2+2", "delete all logs", "list files", "päyload ✓ 漢字", "x" * 300, "list filez"]
+# "weak cache key" twins: different requests that a sloppy request identity would merge (weak checksum, truncation at
+# either end, order- or case-insensitive keys, dropped non-ASCII / digits).  The checksum pairs were found by a birthday
+# search over two prompt templates and are verified at import.
+CRC32_TWINS = [["list open invoices batch fd79c5", "drop table customers tag 1cc19c"],
+               ["list open invoices batch dc6192", "drop table customers tag 3db9cd"],
+               ["list open invoices batch ba29ba", "drop table customers tag 5ff187"]]
+ADLER32_TWINS = [["list open invoices batch 9e358f", "drop table customers tag 753da2"],
+                 ["list open invoices batch 37be73", "drop table customers tag 72a0a2"],
+                 ["list open invoices batch 763d67", "drop table customers tag 8070b2"]]
+assert all(zlib.crc32(a.encode()) == zlib.crc32(b.encode()) and a != b for a, b in CRC32_TWINS)
+assert all(zlib.adler32(a.encode()) == zlib.adler32(b.encode()) and a != b for a, b in ADLER32_TWINS)
+WEAK_TWINS = CRC32_TWINS + ADLER32_TWINS + [
+    ["list files in /tmp/a and stop", "list files in /tmp/b and stop"],          # same first 8, last 8, length
+    ["read log then purge", "purge log then read"],                              # same characters, other order
+    ["q" * 64 + " then report", "q" * 64 + " then delete"],                      # equal in the first 64 characters
+    ["restart nginx", "restart nginx\u200b"],                                    # differ by a non-ASCII character only
+    ["rotate key 17", "rotate key 18"],                                          # differ by a digit only
+    ["Deploy service", "deploy service"], ["deploy service", "deploy service "]]
+WEAK_PAIRS = {frozenset(p) for p in WEAK_TWINS}
 PREFIX_TWINS = [["deploy service", "deploy server", "deploy s"], ["list files", "list filez"],
                 ["deploy service", "deploy service "], ["deploy service", "Deploy service"]]
 
 
 # ----------------------------------------------------------------------------------------- plans
+SOURCES = ["none", "none", "none", "self", "empty", "other", "mallory", "sub-model-7"]
+PAYLOADS = ["text", "text", "text", "none", "dict", "int", "empty"]
+CONFS = [0.9, 0.9, 1.0, 0.0, -1.0, 7.5]
+
+
+def _style(rng, plain=0.45):
+    """Optional ActionProtein fields the library never sets itself but an agent may, and the observer callbacks."""
+    if rng.random() < plain:
+        pr = {"src_e": "none", "src_a": "none", "payload": "text", "conf": 0.9, "meta": False}
+    else:
+        pr = {"src_e": rng.choice(SOURCES), "src_a": rng.choice(SOURCES), "payload": rng.choice(PAYLOADS),
+              "conf": rng.choice(CONFS), "meta": rng.random() < 0.4}
+    cb = weighted(rng, [(6, "none"), (2.5, "record"), (0.8, "raise"), (0.4, "raise_block"), (0.4, "raise_permit")])
+    return pr, cb
+
+
 def _cell(i):
     cache = i % 2 == 1
     i //= 2
@@ -147,9 +189,11 @@ def gen(rng, tier, i):
         ops = [["run", 0, ez, ay]]
         if cache:
             ops.append(["run", 0] + (["BLOCK", "BLOCK"] if sat(logic, ez, ay) else ["EXECUTE", "PERMIT"]))
+        prompt = rng.choice(POOL)
+        pr, cb = _style(rng)
         return {"config": {"logic": logic, "cache": cache, "ttl": 300.0, "breaker": "off", "agents": "fake",
-                           "budget": 1000},
-                "prompts": [rng.choice(POOL)], "cell": [logic, ez, ay, cache], "ops": ops}
+                           "budget": 1000, "protein": pr, "callbacks": cb},
+                "prompts": [prompt], "cell": [logic, ez, ay, cache], "ops": ops}
 
     if i % THREADS_EVERY == 0:
         return _gen_threads(rng, tier)
@@ -161,14 +205,18 @@ def gen(rng, tier, i):
            "breaker": "off" if rng.random() < 0.7 else "huge",
            "agents": "real" if real else "fake",
            "budget": rng.choice([10, 20, 30, 40, 1000]) if real else 1000}
-    if rng.random() < 0.5:
-        prompts = list(rng.choice(PREFIX_TWINS))
+    x = rng.random()
+    if x < 0.6:
+        prompts = list(rng.choice(PREFIX_TWINS if x < 0.3 else WEAK_TWINS))
         rng.shuffle(prompts)
         prompts = prompts[:rng.choice([2, 3])]
-        if len(prompts) < 3 and rng.random() < 0.5:
+        if len(prompts) < 3 and rng.random() < 0.4:
             prompts.append(rng.choice([p for p in POOL if p not in prompts]))
     else:
         prompts = rng.sample(POOL, rng.choice([2, 3]))
+    cfg["protein"], cfg["callbacks"] = _style(rng)
+    if real:
+        cfg["protein"] = _style(rng, plain=1.0)[0]
     depth = rng.randint(3, 9 if tier == "quick" else 14)
     ops = []
     while len(ops) < depth:
@@ -219,12 +267,14 @@ def _gen_threads(rng, tier):
            "cache": rng.random() < 0.65, "ttl": rng.choice([1.0, 60.0, 300.0]),
            "breaker": "off" if rng.random() < 0.7 else "huge", "agents": "fake", "budget": 1000,
            "strategy": dict(weighted(rng, STRATEGIES))}
-    if rng.random() < 0.4:
-        prompts = list(rng.choice(PREFIX_TWINS))
+    x = rng.random()
+    if x < 0.5:
+        prompts = list(rng.choice(PREFIX_TWINS if x < 0.25 else WEAK_TWINS))
         rng.shuffle(prompts)
         prompts = prompts[:rng.choice([2, 3])]
     else:
         prompts = rng.sample(POOL, rng.choice([2, 3]))
+    cfg["protein"], cfg["callbacks"] = _style(rng)
 
     def passing():
         return [rng.choice(["EXECUTE", "EXECUTE", "PERMIT"]), "PERMIT"]
@@ -296,8 +346,17 @@ def simplify(plan):
         yield yielded
 
 
+PLAIN = {"src_e": "none", "src_a": "none", "payload": "text", "conf": 0.9, "meta": False}
+
+
 def _simplify_ops(plan):
     cfg = plan["config"]
+    if cfg.get("callbacks", "none") != "none":
+        yield {**plan, "config": {**cfg, "callbacks": "none"}}
+    pr = cfg.get("protein") or PLAIN
+    for key in PLAIN:
+        if pr.get(key, PLAIN[key]) != PLAIN[key]:
+            yield {**plan, "config": {**cfg, "protein": {**PLAIN, **pr, key: PLAIN[key]}}}
     lists = _op_lists(plan)
     used = sorted({op[1] for _, ops in lists for op in ops if op[0] == "run"} |
                   {op[2] for _, ops in lists for op in ops if op[:2] == ["clock", "ttl"]})
@@ -349,14 +408,19 @@ def coverage_extra(tier):
 
 
 # ----------------------------------------------------------------------------------------- fakes
+class ObserverError(Exception):
+    """Raised by the scripted on_block / on_permit observers (the caller's own exception, never a violation)."""
+
+
 class Req:
-    """What one run() call of one task saw of the agents."""
-    __slots__ = ("ez_script", "ay_script", "ez", "ay", "asked_e", "asked_a")
+    """What one run() call of one task saw of the agents (and what its observer callback was handed)."""
+    __slots__ = ("ez_script", "ay_script", "ez", "ay", "asked_e", "asked_a", "seen")
 
     def __init__(self, ez, ay):
         self.ez_script, self.ay_script = ez, ay
         self.ez = self.ay = None
         self.asked_e = self.asked_a = 0
+        self.seen = None      # (which callback, snapshot of the LoopResult it was given)
 
 
 class Fake:
@@ -381,7 +445,17 @@ class Fake:
             raise EXC[v[6:]]("scripted failure of " + self.role)
         if v not in KNOWN:
             k.fault("collab_adversarial_value")
-        return ActionProtein(v, f"{self.role} says {v!r}", 0.9, source_agent=self.name)
+        pr = w.cfg.get("protein") or PLAIN
+        src = pr["src_e" if self.role == "executor" else "src_a"]
+        other = w.asr.name if self.role == "executor" else w.ex.name
+        source = {"none": None, "empty": "", "self": self.name, "other": other}.get(src, src)
+        if source and source != self.name:
+            k.probe("protein_tagged_with_foreign_source")
+            k.fault("collab_adversarial_value")
+        payload = {"text": f"{self.role} says {v!r}", "none": None, "dict": {"note": v, "issuer": "mallory"}, "int": 42,
+                   "empty": ""}[pr["payload"]]
+        meta = {"issuer": "mallory", "source_agent": "mallory", "approved": True} if pr["meta"] else {}
+        return ActionProtein(v, payload, pr["conf"], source_agent=source, metadata=meta)
 
 
 class Spy:
@@ -441,10 +515,12 @@ class World:
         self.logic = cfg["logic"]
         self.prompts = plan["prompts"]
         self.budget = ATP_Store(budget=cfg["budget"], silent=quiet())
+        self.cb_mode = cfg.get("callbacks", "none")
+        hooks = {} if self.cb_mode == "none" else {"on_block": self._observer("block"), "on_permit": self._observer("permit")}
         self.loop = CoherentFeedForwardLoop(
             budget=self.budget, gate_logic=GateLogic[self.logic], enable_circuit_breaker=(cfg["breaker"] != "off"),
             failure_threshold=10 ** 9, recovery_timeout_seconds=60.0, enable_cache=cfg["cache"],
-            cache_ttl_seconds=cfg["ttl"], silent=quiet())
+            cache_ttl_seconds=cfg["ttl"], silent=quiet(), **hooks)
         seams.assert_sim_lock(self.loop)
         self.cur_req = {}
         if cfg["agents"] == "real":
@@ -463,6 +539,22 @@ class World:
     def who(self):
         s = self.sched
         return s.cur.name if (s is not None and s.cur is not None) else "main"
+
+    def _observer(self, which):
+        """Recording on_block / on_permit; in the raising modes it raises after having recorded what it was given."""
+        def observe(result):
+            r = self.cur_req.get(self.who())
+            if r is not None:
+                r.seen = (which, self._snap(result))
+            self.k.ev("observer", which)
+            if self.cb_mode in ("raise", "raise_" + which):
+                self.k.fault("collab_raise")
+                raise ObserverError(which)
+        return observe
+
+    @staticmethod
+    def _snap(res):
+        return {"blocked": bool(res.blocked), "success": bool(res.success), "action": str(res.action), "token": tok_of(res)}
 
     # ------------------------------------------------------------------ one request: invoke
     def invoke(self, op, tracer=None):
@@ -489,16 +581,22 @@ class World:
             k.fault("budget_starve")
         if out.kind == "ok":
             res = out.value
-            rec["snap"] = {"blocked": bool(res.blocked), "success": bool(res.success), "action": str(res.action),
-                           "token": tok_of(res)}
+            rec["snap"] = self._snap(res)
             rec["flagged"] = bool(getattr(res, "cached", False))
-            rec["action"] = str(res.action)
+        elif out.kind == "raised" and isinstance(out.exc, ObserverError) and r.seen is not None:
+            # a raising observer is the caller's own exception; the reply it was handed is judged like a returned one
+            rec["snap"], rec["flagged"] = r.seen[1], False
+            k.probe("observer_raised_reply_captured")
+        if "snap" in rec:
+            rec["action"] = rec["snap"]["action"]
+            if r.seen is not None and (r.seen[0] == "permit") == rec["snap"]["blocked"]:
+                k.probe("observer_kind_mismatch")      # not a clause of the statement; only counted
         return rec
 
     def returned(self, rec, where):
         """Clause `returns`: False if the call did not come back with a LoopResult."""
         k, out = self.k, rec["out"]
-        if out.kind == "ok":
+        if "snap" in rec:
             return True
         if out.kind == "deadlock":
             k.violation("returns", "self_deadlock", self.logic, "; ".join(out.exc.chain))
@@ -626,6 +724,9 @@ class World:
                 for other, cs in orig.items():
                     if other != prompt and other[:8] == prompt[:8] and any(not c["raised"] for c in cs):
                         k.probe("prefix_sharing_prompts_cached")
+                    if frozenset((other, prompt)) in WEAK_PAIRS and any(
+                            not c["raised"] and 0 <= us(now) - us(c["t_ret"]) < self.ttl_us for c in cs):
+                        k.probe("weak_key_twins_both_asked")
         else:
             self.judge_cached(rec, orig.get(prompt, []), lambda c: us(now) - us(c["t_ret"]))
         return True
@@ -701,7 +802,7 @@ def _run_threads(plan, k):
                 me.op = None
                 rec["task"] = ti
                 out = rec["out"]
-                k.ev("ret", [ti, oi, rec["ez"], rec["ay"], rec["fresh"], rec.get("snap", out.brief())])
+                k.ev("ret", [ti, oi, rec["ez"], rec["ay"], rec["fresh"], out.kind, rec.get("snap", out.brief())])
                 if out.kind not in ("ok", "raised"):
                     raise HarnessError(f"unexpected outcome {out.kind} inside a scheduled task")
                 if not w.returned(rec, "threads"):
